@@ -123,6 +123,7 @@ def classify(text, root, r, u, r2, prefix=''):
         return any(synth(k) for k in n[2] if not isinstance(k, str))
     if synth(r['xml']):
         return 'F31'
+    text = text.strip()   # what pre_parse does first (any str.isspace character, not only blanks and tabs)
     changed = []
     allr = text
     for fid, fn in REPAIRS:
@@ -134,7 +135,32 @@ def classify(text, root, r, u, r2, prefix=''):
         allr = fn(allr)
     if changed and allr != text and _plain_violation(allr, root, prefix) is None:
         return changed[0]
+    # F40: a referenced FOOTNOTE block that was the only member of a wrapper group (hcontainer / intro / wrapUp) leaves
+    # the wrapper behind empty; the unparser has nothing to write for it. Causal test on the trees: x with its empty
+    # wrappers removed and its eIds regenerated by the real generator is exactly what the round trip gives.
+    if re.search(r'^[ \t]*FOOTNOTE [^ \n]', text, re.M):
+        pruned = prune_empty_wrappers(r['xml'])
+        if pruned != r['xml']:
+            rr = eidlib.real_rewrite(pruned, prefix)
+            if 'tree' in rr and norm(rr['tree']) == norm(r2['xml']):
+                return 'F40'
     return None
+
+
+WRAPPERS = {'hcontainer', 'intro', 'wrapUp'}
+
+
+def prune_empty_wrappers(n):
+    tag, attrs, kids = n
+    ks = []
+    for k in kids:
+        if isinstance(k, str):
+            ks.append(k)
+        elif k[0] in WRAPPERS and not k[2]:
+            continue
+        else:
+            ks.append(prune_empty_wrappers(k))
+    return [tag, attrs, ks]
 
 
 def _plain_violation(text, root, prefix):
